@@ -6,7 +6,7 @@ from .common import fn_table, gen_tape
 PROP = "C08"
 JUDGE = ("C08.",)
 PROGRAMS = ["forms"]
-RUNS = {"quick": 4000, "thorough": 60000}
+RUNS = {"quick": 6000, "thorough": 80000}
 RULE = ("seeded thread schedules (random / PCT / targeted pre-emption inside the tooling and call-entry code); "
         "a run is non-trivial if it delivered an event; distinct = distinct pairs of code locations adjacent "
         "across a context switch")
@@ -50,22 +50,42 @@ def gen(rng, tier, quarantine=()):
             for lv in probe["sels"][0]["levels"]:
                 setup_tool.add(lv["fn"])
         calls = []
-        for _ in range(rng.randint(1, 3)):
+        for _ in range(rng.randint(1, 4)):
             f = rng.choice(shared)
             calls.append({"op": "call", "fn": f, "nargs": FNS[f], "tape": gen_tape(rng, 4)})
-        threads.append({"probe": probe, "calls": calls})
+        rounds = [{"probe": probe, "calls": calls}]
+        if rng.random() < 0.35:
+            # a second round in the same thread: another probe comes after the first one is over
+            # (state left by the first -- counters, cached variants -- meets the other threads)
+            fn2 = rng.choice(shared)
+            probe2 = gen_probe(rng, fn2, table, allow_overlay=True)
+            if probe2["kind"] == "overlay":
+                for lv in probe2["sels"][0]["levels"]:
+                    setup_tool.add(lv["fn"])
+            calls2 = [{"op": "call", "fn": f, "nargs": FNS[f], "tape": gen_tape(rng, 4)}
+                      for f in (rng.choice(shared) for _ in range(rng.randint(1, 3)))]
+            rounds.append({"probe": probe2, "calls": calls2})
+            if rng.random() < 0.5:
+                rounds.reverse()
+        threads.append({"rounds": rounds})
     bound = 3 if tier == "quick" else 5
     r = rng.random()
     sched = {"seed": rng.randrange(1 << 30), "bound": bound, "first": rng.randrange(nthreads)}
-    if r < 0.3:
+    if r < 0.2:
         sched.update({"strategy": "random", "p": rng.choice([0.002, 0.005, 0.02, 0.05, 0.1])})
-    elif r < 0.45:
+    elif r < 0.5:
+        # uniformly placed pre-emptions: a thread is stopped at a random point of the whole run
+        # and the others run on (long windows, e.g. a whole variant compilation, get hit often)
+        horizon = rng.choice([600, 2000, 6000])
+        sched.update({"strategy": "step",
+                      "change_points": sorted(rng.randrange(1, horizon) for _ in range(rng.choice([1, 2, 2, 3])))})
+    elif r < 0.6:
         sched.update({"strategy": "pct", "prio": rng.sample(range(nthreads), nthreads),
                       "change_points": sorted(rng.randrange(1, 4000) for _ in range(rng.choice([1, 2, 3])))})
     else:
         k = rng.choice([1, 1, 2, 3])
         sched.update({"strategy": "targeted",
-                      "targets": [{"fn": rng.choice(TARGET_FNS), "nth": rng.randint(1, 60)} for _ in range(k)],
+                      "targets": [{"fn": rng.choice(TARGET_FNS), "nth": int(1.5 ** rng.uniform(0, 15))} for _ in range(k)],
                       "p": rng.choice([0.0, 0.0, 0.01])})
     return {"prog": "forms", "threads": threads, "sched": sched, "ops": [], "setup_tool": sorted(setup_tool)}
 
